@@ -33,7 +33,11 @@ def run(chk, gate, status):
     # slices and list selectors whose list is changed afterwards): the baked plates against the eager execution and the model
     from props import C08
     n = 14 if chk.tier == 'quick' else 120
-    cases, i = [], 0
+    from props import C17
+    sub = type(chk).__new__(type(chk)); sub.__dict__.update(chk.__dict__); sub.tier = 'quick'
+    # directed: removals on part of a loaded plate (C17's cases, without their queries), transfers inside one plate
+    cases, i = [(recipes.Replayed(p), []) for p in recipes.directed_recipes()] + [(rg, []) for rg, _ in C17.recipe_cases(sub)[:8]], 0
+    n += len(cases)
     while len(cases) < n and i < 10 * n:
         rng = random.Random(chk.seed * 100003 + 71000 + i)
         i += 1
